@@ -64,6 +64,11 @@ def keys_for(rng, table, raw):
     return out
 
 
+# the byte that follows the (length-delimited) key in the caller's buffer: in a type string an
+# identifier is followed by [ ] * ( ) , space or the terminator; lib.<name> is NUL-terminated
+TRAILS = [0x5a, 0x5b, 0x5d, 0x2a, 0x20, 0x28, 0x29, 0x2c, 0x00, 0x30, 0x7a, 0x5f, 0x41]
+
+
 def generate(ctx):
     rng = ctx.rng
     cases = []
@@ -74,7 +79,8 @@ def generate(ctx):
         if unsorted:
             rng.shuffle(table)
         cases.append(dict(kind="raw", fn=rng.randrange(4), table=[t.hex() for t in table],
-                          keys=[k.hex() for k in keys_for(rng, [bytes(t) for t in table], raw)],
+                          keys=["%s %02x" % (k.hex(), rng.choice(TRAILS))
+                                for k in keys_for(rng, [bytes(t) for t in table], raw)],
                           sorted=not unsorted))
     for i in range(ctx.n(6, 60)):
         table = [t for t in gen_table(rng, False) if t]
@@ -121,7 +127,7 @@ def evaluate(ctx, cases):
                 r = res[pos]
                 pos += 1
                 ctx.count()
-                key = bytes.fromhex(k)
+                key = bytes.fromhex(k.split(" ")[0])
                 # property predicate on the implementation (sorted tables only)
                 if c["sorted"]:
                     want = table.index(key) if key in table else -1
